@@ -117,6 +117,9 @@ type Exec struct {
 	baseFuncs       map[string]Val
 	usedContracts   map[string]bool
 	lastPerm        [2]string
+	anchorCalls     map[string]*ast.CallExpr // anchor (call:Name#k, append#k) -> the call expression
+	curCall         *ast.CallExpr            // the call a before/after point is attached to (for arg(i))
+	iterStart       map[int]*State           // state at the start of the current iteration of loop N (for pre(N, e))
 	lastLess        func(st *State, a, b string) string
 	curLoopWritable []string
 	inlineMode      bool
@@ -129,6 +132,7 @@ type Exec struct {
 
 type loopCtx struct {
 	allocEntry string
+	writesAll  bool
 	modRefs    []string
 	autoSlices []autoSlice
 	autoPaths  []autoPath
@@ -504,4 +508,13 @@ func sortedObjs(m map[types.Object]bool) []types.Object {
 		return out[i].Name() < out[j].Name()
 	})
 	return out
+}
+
+// noteIterStart records the state at the start of an iteration of loop ord (after the invariants were assumed, before
+// the body and its ghost code ran): pre(ord, e) in contract expressions of the body and of nested loops reads it.
+func (x *Exec) noteIterStart(ord int, body *State) {
+	if x.iterStart == nil {
+		x.iterStart = map[int]*State{}
+	}
+	x.iterStart[ord] = body.clone()
 }
